@@ -63,7 +63,7 @@ impl Prop for C02 {
         "C02"
     }
     fn rule(&self) -> String {
-        "case = (segment list: sorted multiset of 1..=L ends drawn from a small lattice incl. adjacent floats, ±0, ±inf, duplicates; pieces are tag constants Poly0(i), value pieces Poly1/Poly3/Log<Poly2>/IntOfLogPoly4, or the function is COMPOSED from other library operations on those ends (output of linear(), of constrained_spline(), of Piecewise<Log<Poly4>>::integral(), of &f + &g - the oracle then uses the ends of the function actually built); 1 list in 10 is long (up to 100+ segments); one non-NaN query from the list's alphabet: ends, ±1 ulp, midpoints, beyond both extremes, ±inf, ±MAX, ±0, random). Oracle: linear-scan selection model, result bits = selected piece evaluated directly. Non-trivial: >= 2 segments and x on an end, within one ulp of an end, or strictly inside the ends' range. Distinct by hash of (kind, ends, pool, x) bit patterns. Plus exhaustive scope: all sorted multisets of <= 4 ends over two 5-point lattices x full alphabet.".into()
+        "case = (segment list: sorted multiset of 1..=L ends drawn from a small lattice incl. adjacent floats, ±0, ±inf, duplicates; pieces are tag constants Poly0(i), value pieces Poly1/Poly3/Log<Poly2>/IntOfLogPoly4, or the function is COMPOSED from other library operations on those ends (output of linear(), of constrained_spline(), of Piecewise<Log<Poly4>>::integral(), of &f + &g - the oracle then uses the ends of the function actually built); 1 list in 10 is long (up to 100+ segments); one non-NaN query from the list's alphabet: ends, ±1 ulp, midpoints, beyond both extremes, ±inf, ±MAX, ±0, random). Oracle: linear-scan selection model, result bits = selected piece evaluated directly. Non-trivial: >= 2 segments and x on an end, within one ulp of an end, or strictly inside the ends' range. Distinct by hash of (kind, ends, pool, x) bit patterns. Plus exhaustive scope: all sorted multisets of <= 5 (thorough 7) ends over two 5-point lattices x full alphabet.".into()
     }
     fn cases(&self, tier: Tier) -> u64 {
         tier.pick(1_500_000, 20_000_000)
@@ -101,11 +101,12 @@ impl Prop for C02 {
         let mut v = V { ends: &ends, x, ctx };
         visit_pw(&c.pw, &mut v)
     }
-    fn extras(&self, _tier: Tier, _seed: u64, shard: u32, nshards: u32, sink: &mut dyn FnMut(Case, &'static str)) {
+    fn extras(&self, tier: Tier, _seed: u64, shard: u32, nshards: u32, sink: &mut dyn FnMut(Case, &'static str)) {
         let mut n = 0u32;
+        let maxn = tier.pick(5, 7);
         for (li, lat) in [small_lattice(), vec![-1.0, 0.0, -0.0, 1.0, ppv_exact::next_up(1.0)]].iter().enumerate() {
             // second lattice lists 0.0 before -0.0 (equal under <=, both orders well-formed)
-            let lists = enumerate_multisets(lat, 4);
+            let lists = enumerate_multisets(lat, maxn);
             for ends in lists {
                 n += 1;
                 if n % nshards != shard {
@@ -119,8 +120,8 @@ impl Prop for C02 {
             }
         }
     }
-    fn exhaustive_scopes(&self, _tier: Tier) -> Vec<String> {
-        vec!["all sorted multisets of 1..=4 ends over {-1,-0.0,0.0,1,nextup(1)} (both orders of the signed zeros) x the full query alphabet of each list, tag pieces".into()]
+    fn exhaustive_scopes(&self, tier: Tier) -> Vec<String> {
+        vec![format!("all sorted multisets of 1..={} ends over {{-1,-0.0,0.0,1,nextup(1)}} (both orders of the signed zeros) x the full query alphabet of each list, tag pieces", tier.pick(5, 7))]
     }
     fn from_bytes(&self, u: &mut Unstructured) -> Option<Case> {
         let pw = pw_from_bytes(u, 12)?;
